@@ -69,6 +69,9 @@ def zero_at_points(system: str, q: tuple, e: Any) -> bool:
             rep[a] = sp.Rational(17 + 7 * i + pi_, 9 + 2 * i)
         # substitute derivative atoms first (they contain the coordinates), then the coordinates
         v = e.xreplace(rep).xreplace(dict(zip(q, p)))
+        # free parameters of the field (not coordinates): fixed generic numbers
+        extra = sorted(v.free_symbols, key=lambda s_: (s_.name, sorted(s_.assumptions0.items())))
+        v = v.xreplace({s_: sp.Rational(23 + 4 * i, 11 + 2 * i) for i, s_ in enumerate(extra)})
         try:
             if abs(sp.N(v, 40)) > sp.Float("1e-25"):
                 return False
@@ -143,6 +146,34 @@ def op_cases(system: str, instance: int = 0) -> list[tuple[str, str]]:
     cg = curl_operator(VectorField.from_vector(g)).apply_to_basis().components
     out.append((f"curlgrad:{system_tag}", "" if all(zero_at_points(system, q, x) for x in cg) else
         f"curl(grad f) != 0: {short([sp.simplify(x) for x in cg], 200)}"))
+    # fields with a free parameter whose *name* is that of a coordinate (of this or another kind
+    # of system), with different assumptions: a parameter is a constant, whatever it is called
+    if instance == 0:
+        q1, q2, q3 = q
+        for pname in ("x", "y", "z", "r", "theta", "phi", "rho"):
+            for aname, assume in (("plain", {}), ("positive", {"positive": True}), ("real", {"real":
+                True})):
+                par = sp.Symbol(pname, **assume)
+                f = par * q1 * q2 + par**2 * q3 + q1**2 / par
+                g = gradient_operator(ScalarField.from_expression(f, cs))
+                want = ref.grad(f)
+                ok = len(g.components) == 3 and all(zero_at_points(system, q, a - b) for a, b in
+                    zip(g.components, want))
+                out.append((f"grad:{system_tag}:parameter:{pname}:{aname}", "" if ok else
+                    f"gradient of a field with the free parameter {pname} ({aname}) in {system} is "
+                    f"{short(g.components, 160)}, chain rule gives "
+                    f"{short([sp.simplify(w) for w in want], 160)}"))
+                comps = [par * q1 * q3, q1 * q2 / par, par**2 * q2 + q1]
+                F = VectorField.from_vector(Vector(comps, cs))
+                d = divergence_operator(F)
+                out.append((f"div:{system_tag}:parameter:{pname}:{aname}", "" if zero_at_points(system,
+                    q, d - ref.div(comps)) else f"divergence of a field with the free parameter "
+                    f"{pname} ({aname}) in {system} is {short(d, 160)}"))
+                c = curl_operator(F).apply_to_basis().components
+                ok = all(zero_at_points(system, q, a - b) for a, b in zip(R.pad(c), ref.curl(comps)))
+                out.append((f"curl:{system_tag}:parameter:{pname}:{aname}", "" if ok else
+                    f"curl of a field with the free parameter {pname} ({aname}) in {system} is "
+                    f"{short(c, 160)}"))
     # linearity premise on basis pairs (gradient and divergence of slot 0)
     for (n1, f1), (n2, f2) in itertools.combinations(B[1:6], 2):
         k = sp.Rational(5, 3)
